@@ -90,54 +90,57 @@ pub trait DynRes<T>: Send {
     }
 }
 
-impl<T: Sample, R: Resampler<T>> DynRes<T> for R {
+/// A concrete resampler used directly through the `Resampler` trait.
+pub struct Direct<R>(pub R);
+
+impl<T: Sample, R: Resampler<T>> DynRes<T> for Direct<R> {
     fn pib(&mut self, i: &[Vec<T>], o: &mut [Vec<T>], m: Option<&[bool]>) -> ResampleResult<(usize, usize)> {
-        self.process_into_buffer(i, o, m)
+        self.0.process_into_buffer(i, o, m)
     }
     fn proc_alloc(&mut self, i: &[Vec<T>], m: Option<&[bool]>) -> ResampleResult<Vec<Vec<T>>> {
-        self.process(i, m)
+        self.0.process(i, m)
     }
     fn partial_pib(&mut self, i: Option<&[Vec<T>]>, o: &mut [Vec<T>], m: Option<&[bool]>) -> ResampleResult<(usize, usize)> {
-        self.process_partial_into_buffer(i, o, m)
+        self.0.process_partial_into_buffer(i, o, m)
     }
     fn partial_alloc(&mut self, i: Option<&[Vec<T>]>, m: Option<&[bool]>) -> ResampleResult<Vec<Vec<T>>> {
-        self.process_partial(i, m)
+        self.0.process_partial(i, m)
     }
     fn in_next(&self) -> usize {
-        self.input_frames_next()
+        self.0.input_frames_next()
     }
     fn in_max(&self) -> usize {
-        self.input_frames_max()
+        self.0.input_frames_max()
     }
     fn out_next(&self) -> usize {
-        self.output_frames_next()
+        self.0.output_frames_next()
     }
     fn out_max(&self) -> usize {
-        self.output_frames_max()
+        self.0.output_frames_max()
     }
     fn delay(&self) -> usize {
-        self.output_delay()
+        self.0.output_delay()
     }
     fn channels(&self) -> usize {
-        self.nbr_channels()
+        self.0.nbr_channels()
     }
     fn set_ratio(&mut self, r: f64, ramp: bool) -> ResampleResult<()> {
-        self.set_resample_ratio(r, ramp)
+        self.0.set_resample_ratio(r, ramp)
     }
     fn set_rel(&mut self, r: f64, ramp: bool) -> ResampleResult<()> {
-        self.set_resample_ratio_relative(r, ramp)
+        self.0.set_resample_ratio_relative(r, ramp)
     }
     fn set_chunk(&mut self, c: usize) -> ResampleResult<()> {
-        self.set_chunk_size(c)
+        self.0.set_chunk_size(c)
     }
     fn rst(&mut self) {
-        self.reset()
+        self.0.reset()
     }
     fn in_alloc(&self, filled: bool) -> Vec<Vec<T>> {
-        self.input_buffer_allocate(filled)
+        self.0.input_buffer_allocate(filled)
     }
     fn out_alloc(&self, filled: bool) -> Vec<Vec<T>> {
-        self.output_buffer_allocate(filled)
+        self.0.output_buffer_allocate(filled)
     }
 }
 
@@ -167,5 +170,60 @@ pub fn classify(e: &rubato::ResampleError) -> ErrKind {
         E::InsufficientOutputBufferSize { channel, expected, actual } => ErrKind::ShortOut { channel: *channel, expected: *expected, actual: *actual },
         E::InvalidChunkSize { max, requested } => ErrKind::InvalidChunk { max: *max, requested: *requested },
         E::ChunkSizeNotAdjustable => ErrKind::ChunkNotAdjustable,
+    }
+}
+
+/// A resampler reached through the object-safe `VecResampler` wrapper trait (C16). The wrapper
+/// trait has no reset / set_chunk_size; histories driven through it do not contain those ops.
+pub struct ViaVec<T>(pub Box<dyn rubato::VecResampler<T>>);
+
+impl<T: Sample> DynRes<T> for ViaVec<T> {
+    fn pib(&mut self, i: &[Vec<T>], o: &mut [Vec<T>], m: Option<&[bool]>) -> ResampleResult<(usize, usize)> {
+        self.0.process_into_buffer(i, o, m)
+    }
+    fn proc_alloc(&mut self, i: &[Vec<T>], m: Option<&[bool]>) -> ResampleResult<Vec<Vec<T>>> {
+        self.0.process(i, m)
+    }
+    fn partial_pib(&mut self, i: Option<&[Vec<T>]>, o: &mut [Vec<T>], m: Option<&[bool]>) -> ResampleResult<(usize, usize)> {
+        self.0.process_partial_into_buffer(i, o, m)
+    }
+    fn partial_alloc(&mut self, i: Option<&[Vec<T>]>, m: Option<&[bool]>) -> ResampleResult<Vec<Vec<T>>> {
+        self.0.process_partial(i, m)
+    }
+    fn in_next(&self) -> usize {
+        self.0.input_frames_next()
+    }
+    fn in_max(&self) -> usize {
+        self.0.input_frames_max()
+    }
+    fn out_next(&self) -> usize {
+        self.0.output_frames_next()
+    }
+    fn out_max(&self) -> usize {
+        self.0.output_frames_max()
+    }
+    fn delay(&self) -> usize {
+        self.0.output_delay()
+    }
+    fn channels(&self) -> usize {
+        self.0.nbr_channels()
+    }
+    fn set_ratio(&mut self, r: f64, ramp: bool) -> ResampleResult<()> {
+        self.0.set_resample_ratio(r, ramp)
+    }
+    fn set_rel(&mut self, r: f64, ramp: bool) -> ResampleResult<()> {
+        self.0.set_resample_ratio_relative(r, ramp)
+    }
+    fn set_chunk(&mut self, _c: usize) -> ResampleResult<()> {
+        unreachable!("VecResampler has no set_chunk_size")
+    }
+    fn rst(&mut self) {
+        unreachable!("VecResampler has no reset")
+    }
+    fn in_alloc(&self, filled: bool) -> Vec<Vec<T>> {
+        self.0.input_buffer_allocate(filled)
+    }
+    fn out_alloc(&self, filled: bool) -> Vec<Vec<T>> {
+        self.0.output_buffer_allocate(filled)
     }
 }
